@@ -37,10 +37,8 @@ def main():
             tier = sys.argv[i + 1]
     skip_demo = "--skip-demo" in sys.argv
     src = "/tmp/sw/%s/out/%s" % (pid.upper(), mn)
-    if mn.startswith("d"):  # fourth round
-        src = "/tmp/sw/%sd/out/m%s" % (pid.upper() if 'upper' in dir(pid) else pid, mn[1:])
-    if mn.startswith("c"):  # third round
-        src = "/tmp/sw/%sc/out/m%s" % (pid.upper() if 'upper' in dir(pid) else pid, mn[1:])
+    if mn[0] in "cdefg":  # third and later rounds: /tmp/sw/<PID><letter>/out/m<k> is kept as <PID>_<letter><k>
+        src = "/tmp/sw/%s%s/out/m%s" % (pid.upper(), mn[0], mn[1:])
     if mn.startswith("b"):  # second round: /tmp/sw/<PID>b/out/m<k> is kept as <PID>_b<k>
         src = "/tmp/sw/%sb/out/m%s" % (pid.upper(), mn[1:])
     if not os.path.isdir(src):
